@@ -18,6 +18,9 @@ VARIABLES tid, oi, ph, k, lk, nf
 vars == <<tid, oi, ph, k, lk, nf>>
 
 Eps  == "1e-9"
+\* Exact traces (dyadic numbers, decisions placed exactly ON their thresholds) are judged at the threshold itself:
+\* no rounding band (a negative band is never met)
+BandOf == IF "exact" \in DOMAIN Traces[tid] /\ Traces[tid].exact THEN "-1" ELSE Band
 
 Tr == Traces[tid]
 Ch == Tr.elems
@@ -60,7 +63,7 @@ GridFails(r, ep, j) ==
 RuleEv(r, j, idx) == { e \in { r.rule[x] : x \in 1..Len(r.rule) } : e.at = j /\ e.idx = idx }
 CtlEv(r, j) == { e \in { r.control[x] : x \in 1..Len(r.control) } : e.at = j }
 EffProd(ch) == LET RECURSIVE P(_) P(i) == IF i = 1 THEN "1" ELSE RMul(P(i - 1), Eff(ch, i)) IN P(Len(ch))
-NearT(a, b, scale) == RLe(RAbs(RSub(a, b)), RMul(Band, scale))
+NearT(a, b, scale) == RLe(RAbs(RSub(a, b)), RMul(BandOf, scale))
 
 \* what the documentation says rule `ru' proposes at the recorded state X  ->  set of allowed proposals
 \* ("null" = not applicable; "any" = not judged: a window boundary within rounding distance)
@@ -126,7 +129,7 @@ ControlFails(r, ep, j, X, pwmF, dt) ==
 StopOf(r) == Tr.stops[r.stop]
 SensorValue(s, X) == CASE s.sensor = "enc" -> X.el[s.el + 1].pos [] s.sensor = "tach" -> X.el[s.el + 1].spd [] s.sensor = "amp" -> X.cur
 StopClass(v, thr) == IF REq(v, thr) THEN "same"
-                     ELSE IF RLe(RAbs(RSub(v, thr)), RMul(Band, RMax(RAbs(v), RAbs(thr)))) THEN "band"
+                     ELSE IF RLe(RAbs(RSub(v, thr)), RMul(BandOf, RMax(RAbs(v), RAbs(thr)))) THEN "band"
                      ELSE IF RLt(v, thr) THEN "less" ELSE "greater"
 StopVerdict(s, cls) == CmpExpected(cls)[s.op]
 SensEv(r, j) == { e \in { r.sensor[x] : x \in 1..Len(r.sensor) } : e.at = j }
@@ -183,7 +186,7 @@ LockCands(r, ep, j, prevLk) ==
       wN == IF hasPrev THEN AdvSpd(Ch, P, dt) ELSE r.pre_live[N(Ch)].angular_speed
       wsc == IF hasPrev THEN AdvScale(Ch, P, dt) ELSE RAbs(wN) IN
   IF (hasPrev /\ ~CoreNums(P)) \/ ~RIsNum(pwmF) \/ ~(tqF = SNull \/ RIsNum(tqF)) \/ ~RIsNum(wN) THEN {prevLk}
-  ELSE LockSet(SL, prevLk, pwmF, tqF, RMul(RatioProd(Ch, 1), wN), RMul(RatioProd(Ch, 1), wsc), Band)
+  ELSE LockSet(SL, prevLk, pwmF, tqF, RMul(RatioProd(Ch, 1), wN), RMul(RatioProd(Ch, 1), wsc), BandOf)
 
 (* ---- end of a run: C11 count, C16 first hit, C17 rectangular histories and live attributes ---- *)
 LensOK(r, n) == \A i \in 1..Len(r.lens) : \A f \in DOMAIN r.lens[i] : r.lens[i][f] = n
